@@ -36,6 +36,17 @@ def step (_ : Unit) (line : String) : Unit × String :=
       match parseVV a, parseVV b with
       | some a, some b => showVV (merge a b)
       | _, _ => "bad-op"
+    | ["wide", n, k] =>
+      -- W = {w0..w(n-1) ↦ 1}, E = {e0..e(k-1) ↦ 2}: size of the join, its e-components, both comparisons with E
+      match n.toNat?, k.toNat? with
+      | some n, some k =>
+        if n > 70000 ∨ k > 8 then "bad-op" else
+        let w : VV := (List.range n).map (fun i => (s!"w{i}", 1))
+        let e : VV := (List.range k).map (fun i => (s!"e{i}", 2))
+        let r := merge w e
+        let gs := joinWith "," ((List.range k).map (fun i => toString (get r s!"e{i}")))
+        s!"size={r.length} get={gs} c1={showOrder (compare r e)} c2={showOrder (compare e r)}"
+      | _, _ => "bad-op"
     | ["inc", a, n] =>
       match parseVV a with
       | some a =>
